@@ -1,7 +1,9 @@
 //go:build verif
 
-// C34 driver: the real pick_first policy (balancer registry, "pick_first") under a recording
-// balancer.ClientConn, driven by arbitrary histories.
+// C34 driver (in-package: it mocks balancer/pickfirst/internal.TimeAfterFunc, which only this directory
+// may import): the real pick_first policy (balancer registry, "pick_first") under a recording
+// balancer.ClientConn, driven by arbitrary histories.  Every happy-eyeballs timer callback ever scheduled
+// is kept together with a "cancel called" and a "has run" bit.
 //
 // Addresses are codes fam*1000+n (fam 0 = not an IP literal, 1 = IPv4, 2 = IPv6, n < 256).
 //
@@ -12,8 +14,12 @@
 //	              state listener of sub-channel sc - ANY sub-channel ever created, also one that
 //	              was shut down long ago (a queued update), in any order
 //	[4]           resolver error
-//	[5]           250ms of (virtual) time pass: the happy-eyeballs timer fires if one is scheduled
+//	[5]           250ms pass: the happy-eyeballs timer callback runs if one is scheduled and not cancelled
 //	[6]           ExitIdle
+//	[8, k]        a STALE timer callback runs: the k-th (mod their number) callback whose cancel function was
+//	              called before it ran - in the real world its goroutine had been started by the timer and
+//	              was parked on b.mu while the holder of the mutex cancelled the timer.  The `cancelled` flag of
+//	              scheduleNextConnectionLocked makes it a no-op (so does the model: no event at all)
 //
 // obs: one word per event, every op ends with [0]
 //
@@ -33,15 +39,22 @@ import (
 	"time"
 
 	"google.golang.org/grpc/balancer"
-	_ "google.golang.org/grpc/balancer/pickfirst"
+	pfinternal "google.golang.org/grpc/balancer/pickfirst/internal"
 	"google.golang.org/grpc/connectivity"
 	"google.golang.org/grpc/resolver"
 )
+
+type vPickFirstTimer struct {
+	f         func()
+	cancelled bool // the cancel function returned by TimeAfterFunc was called
+	ran       bool
+}
 
 type vPickFirstEnv struct {
 	evs     [][]int64
 	scs     []*vPickFirstSC
 	pending []*vPickFirstSC // Connect() called, not yet answered
+	timers  []*vPickFirstTimer
 }
 
 type vPickFirstCC struct {
@@ -148,6 +161,13 @@ func vPickFirstSortRuns(evs [][]int64) [][]int64 {
 func vPickFirstExecIn(ops [][]int64) (obs [][]int64, nontrivial bool, tags []string) {
 	e := &vPickFirstEnv{}
 	cc := &vPickFirstCC{e: e}
+	origTimer := pfinternal.TimeAfterFunc
+	defer func() { pfinternal.TimeAfterFunc = origTimer }()
+	pfinternal.TimeAfterFunc = func(_ time.Duration, f func()) func() {
+		tm := &vPickFirstTimer{f: f}
+		e.timers = append(e.timers, tm)
+		return func() { tm.cancelled = true }
+	}
 	b := balancer.Get("pick_first").Build(cc, balancer.BuildOptions{})
 	defer b.Close()
 	tg := map[string]bool{}
@@ -179,9 +199,29 @@ func vPickFirstExecIn(ops [][]int64) (obs [][]int64, nontrivial bool, tags []str
 			case 4:
 				b.ResolverError(errors.New("verif"))
 			case 5:
-				time.Sleep(250 * time.Millisecond)
+				// the (at most one) live timer expires
+				for _, tm := range e.timers {
+					if !tm.cancelled && !tm.ran {
+						tm.ran = true
+						tm.f()
+						break
+					}
+				}
 			case 6:
 				b.ExitIdle()
+			case 8:
+				var stale []*vPickFirstTimer
+				for _, tm := range e.timers {
+					if tm.cancelled && !tm.ran {
+						stale = append(stale, tm)
+					}
+				}
+				if len(op) == 2 && op[1] >= 0 && len(stale) > 0 {
+					tm := stale[int(op[1])%len(stale)]
+					tm.ran = true
+					tg["stale_callback"] = true
+					tm.f()
+				}
 			}
 		}
 		synctest.Wait()
@@ -246,6 +286,12 @@ func vPickFirstGen(r *vRand, tier string, idx int) ([]int64, [][]int64) {
 	case 5:
 		// the same with three addresses and the timer: cursor at 2 when ExitIdle arrives
 		return nil, [][]int64{{1, 1001, 1002, 1003}, {2, 0, 1}, {2, 0, 2}, {2, 0, 0}, {2, 0, 3}, {5}, {2, 2, 3}, {6}, {2, 1, 3}, {2, 0, 0}, {5}}
+	case 6:
+		// stale happy-eyeballs callback after READY (seeded C34_r2_2): nothing may happen
+		return nil, [][]int64{{1, 1001, 1002, 1003}, {2, 0, 1}, {2, 0, 2}, {8, 0}, {5}, {8, 0}}
+	case 7:
+		// stale callbacks after an out-of-turn failure advanced the cursor, after a resolver update, after IDLE
+		return nil, [][]int64{{1, 1001, 1002, 1003}, {2, 0, 1}, {2, 0, 3}, {8, 0}, {2, 1, 1}, {1, 1001, 1002, 1003, 1004}, {8, 0}, {8, 1}, {5}, {2, 1, 0}, {8, 0}, {6}, {8, 2}}
 	}
 	var ops [][]int64
 	n := 25 + r.Intn(60)
@@ -274,6 +320,9 @@ func vPickFirstGen(r *vRand, tier string, idx int) ([]int64, [][]int64) {
 			}
 		case k < 32:
 			ops = append(ops, []int64{6})
+		case k < 37:
+			// a stale timer callback (its timer was cancelled while it waited for b.mu), if there is one
+			ops = append(ops, []int64{8, int64(r.Intn(4))})
 		default:
 			// mostly the most recent sub-channels, sometimes any (also long shut-down ones)
 			var sc int64
@@ -292,6 +341,9 @@ func vPickFirstGen(r *vRand, tier string, idx int) ([]int64, [][]int64) {
 				st = r.PickI64(2, 2, 3, 3)
 			}
 			ops = append(ops, []int64{2, sc, st})
+			if (st == 2 || st == 3 || st == 0) && r.Chance(25) {
+				ops = append(ops, []int64{8, int64(r.Intn(3))})
+			}
 			if st == 3 && r.Chance(60) {
 				nsc++
 			}
